@@ -128,6 +128,7 @@ package push
 //@   requires [a_replaced_entry_is_a_batch_channel] exist ==> typeis(valueInMap, chan map[string][]Message)
 //@   modifies ghost.chansent[*], ghost.chanlen[*]
 //@   ensures [stores_the_new_responder] same(result, newValue)
+//@   atsend [only_the_replaced_poller_is_told_to_give_up] ch == ival(valueInMap) && sent == nil
 
 //@ func (*Broker).message
 //@   prop C19
@@ -234,3 +235,23 @@ package push
 //@       (typeis(ghost.sm_val[ref(topics)][str(topic)], *MessageCache) && as(ghost.sm_val[ref(topics)][str(topic)], *MessageCache) != nil)
 //@   modifies ghost.*
 //@   ensures [dropped_exactly_when_it_was_there] result == old(ghost.sm_has[ref(topics)][str(topic)])
+
+// subscribing on the client: the callback is in place BEFORE the broker is told, because the poll
+// loop may already be running and dispatch drops a batch for a topic that has no callback yet
+//@ ghost pxsub int
+// (assumed) the RPC proxy of the broker's "+" method: one remote call
+//@ type ProxySubscribe(topic) (ok, err)
+//@   havoc
+//@   modifies ghost.pxsub
+//@   ensures ghost.pxsub == old(ghost.pxsub) + 1
+//@ fieldfunc prosumer.subscribe ProxySubscribe
+// (assumed) reads the client's request headers only
+//@ func (*Prosumer).ID
+//@   modifies nothing
+//@ func (*Prosumer).Subscribe
+//@   prop C19
+//@   havoc
+//@   requires p != nil
+//@   modifies ghost.*
+//@   atcall Store [the_callback_is_in_place_before_the_broker_is_told] ghost.pxsub == old(ghost.pxsub)
+//@   ensures [registered_then_subscribed_once] calls(Store) == ghost.pxsub - old(ghost.pxsub) && calls(Store) <= 1
